@@ -484,3 +484,219 @@ func RampHistory(r *rand.Rand, sig canon.Signal, nb, n int, highReuse bool) *His
 	h.N, h.Gen = nb, gen
 	return h
 }
+
+// WideHistory builds nb batches of n items in which EVERY dictionary-encodable field of EVERY record type
+// carries a value unique to the item (own resource and scope per item included): the first batch pushes all
+// dictionary columns of a record across their index width in the same build (many schema-update requests at
+// once), and under a small dictionary limit all of them overflow together. With stagger > 0, field number j
+// stays constant until batch j*stagger and only then starts carrying unique values, so that the columns cross
+// one after the other: one schema evolution (a replaced IPC stream) every few batches, for dozens of batches.
+func WideHistory(sig canon.Signal, nb, n, stagger int) *History {
+	h := &History{Script: fmt.Sprintf("wide(n=%d,stagger=%d)", n, stagger), N: nb}
+	h.Gen = func(k int) Batch {
+		fld := 0
+		// u returns the unique value for the next field (or 0 while the field is not yet active)
+		mk := func(v int) func() int {
+			fld = 0
+			return func() int {
+				j := fld
+				fld++
+				if stagger > 0 && k < j*stagger {
+					return 0
+				}
+				return v
+			}
+		}
+		res := func(r pcommon.Resource, u func() int) string {
+			r.Attributes().PutStr("host", fmt.Sprintf("h%d", u()))
+			r.SetDroppedAttributesCount(uint32(u()))
+			return fmt.Sprintf("https://r/%d", u())
+		}
+		sco := func(s pcommon.InstrumentationScope, u func() int) string {
+			s.SetName(fmt.Sprintf("lib-%d", u()))
+			s.SetVersion(fmt.Sprintf("v%d", u()))
+			s.Attributes().PutInt("s", int64(u()))
+			return fmt.Sprintf("https://s/%d", u())
+		}
+		attrs := func(m pcommon.Map, u func() int) {
+			m.PutStr(fmt.Sprintf("k%d", u()%300), fmt.Sprintf("v%d", u()))
+			m.PutInt("n", int64(u()))
+			m.PutDouble("d", float64(u())+0.5)
+			m.PutEmptyBytes("b").FromRaw([]byte(fmt.Sprintf("b%d", u())))
+			m.PutEmptyMap("m").PutInt("x", int64(u()))
+		}
+		base := uint64(1_700_000_000_000_000_000)
+		switch sig {
+		case canon.Traces:
+			td := ptrace.NewTraces()
+			for i := 0; i < n; i++ {
+				v := k*n + i + 1
+				u := mk(v)
+				rs := td.ResourceSpans().AppendEmpty()
+				rs.SetSchemaUrl(res(rs.Resource(), u))
+				ss := rs.ScopeSpans().AppendEmpty()
+				ss.SetSchemaUrl(sco(ss.Scope(), u))
+				s := ss.Spans().AppendEmpty()
+				s.SetName(fmt.Sprintf("name-%d", u()))
+				x := u()
+				s.SetTraceID(pcommon.TraceID{byte(x), byte(x >> 8), byte(x >> 16), 1})
+				x = u()
+				s.SetSpanID(pcommon.SpanID{byte(x), byte(x >> 8), byte(x >> 16), 2})
+				x = u()
+				s.SetParentSpanID(pcommon.SpanID{byte(x), byte(x >> 8), byte(x >> 16), 3})
+				s.TraceState().FromRaw(fmt.Sprintf("ts=%d", u()))
+				s.SetKind(ptrace.SpanKind(u() % 6))
+				s.SetStartTimestamp(pcommon.Timestamp(base + uint64(u())*1000))
+				s.SetEndTimestamp(s.StartTimestamp() + pcommon.Timestamp(u()*13))
+				s.SetDroppedAttributesCount(uint32(u()))
+				s.SetDroppedEventsCount(uint32(u()))
+				s.SetDroppedLinksCount(uint32(u()))
+				s.Status().SetCode(ptrace.StatusCode(u() % 3))
+				s.Status().SetMessage(fmt.Sprintf("msg-%d", u()))
+				attrs(s.Attributes(), u)
+				ev := s.Events().AppendEmpty()
+				ev.SetName(fmt.Sprintf("ev-%d", u()))
+				ev.SetTimestamp(pcommon.Timestamp(base + uint64(u())))
+				ev.SetDroppedAttributesCount(uint32(u()))
+				attrs(ev.Attributes(), u)
+				l := s.Links().AppendEmpty()
+				x = u()
+				l.SetTraceID(pcommon.TraceID{byte(x), byte(x >> 8), byte(x >> 16), 7})
+				x = u()
+				l.SetSpanID(pcommon.SpanID{byte(x), byte(x >> 8), byte(x >> 16), 8})
+				l.TraceState().FromRaw(fmt.Sprintf("lts=%d", u()))
+				l.SetDroppedAttributesCount(uint32(u()))
+				attrs(l.Attributes(), u)
+			}
+			return TB(td)
+		case canon.Logs:
+			ld := plog.NewLogs()
+			for i := 0; i < n; i++ {
+				v := k*n + i + 1
+				u := mk(v)
+				rl := ld.ResourceLogs().AppendEmpty()
+				rl.SetSchemaUrl(res(rl.Resource(), u))
+				sl := rl.ScopeLogs().AppendEmpty()
+				sl.SetSchemaUrl(sco(sl.Scope(), u))
+				l := sl.LogRecords().AppendEmpty()
+				switch i % 4 {
+				case 0:
+					l.Body().SetStr(fmt.Sprintf("free text body %d", u()))
+				case 1:
+					l.Body().SetInt(int64(u()))
+				case 2:
+					l.Body().SetEmptyBytes().FromRaw([]byte(fmt.Sprintf("bytes-%d", u())))
+				default:
+					l.Body().SetEmptyMap().PutInt("m", int64(u()))
+				}
+				l.SetSeverityText(fmt.Sprintf("sev-%d", u()))
+				l.SetSeverityNumber(plog.SeverityNumber(u() % 25))
+				x := u()
+				l.SetTraceID(pcommon.TraceID{byte(x), byte(x >> 8), byte(x >> 16), 1})
+				x = u()
+				l.SetSpanID(pcommon.SpanID{byte(x), byte(x >> 8), byte(x >> 16), 2})
+				l.SetTimestamp(pcommon.Timestamp(base + uint64(u())))
+				l.SetObservedTimestamp(pcommon.Timestamp(base + uint64(u())*3))
+				l.SetFlags(plog.LogRecordFlags(u()))
+				l.SetDroppedAttributesCount(uint32(u()))
+				attrs(l.Attributes(), u)
+			}
+			return LB(ld)
+		default:
+			md := pmetric.NewMetrics()
+			for i := 0; i < n; i++ {
+				v := k*n + i + 1
+				u := mk(v)
+				rm := md.ResourceMetrics().AppendEmpty()
+				rm.SetSchemaUrl(res(rm.Resource(), u))
+				sm := rm.ScopeMetrics().AppendEmpty()
+				sm.SetSchemaUrl(sco(sm.Scope(), u))
+				m := sm.Metrics().AppendEmpty()
+				m.SetName(fmt.Sprintf("metric-%d", u()))
+				m.SetDescription(fmt.Sprintf("desc-%d", u()))
+				m.SetUnit(fmt.Sprintf("u%d", u()))
+				ex := func(es pmetric.ExemplarSlice) {
+					e := es.AppendEmpty()
+					x := u()
+					e.SetTraceID(pcommon.TraceID{byte(x), byte(x >> 8), byte(x >> 16), 3})
+					x = u()
+					e.SetSpanID(pcommon.SpanID{byte(x), byte(x >> 8), byte(x >> 16), 4})
+					e.SetTimestamp(pcommon.Timestamp(base + uint64(u())))
+					e.SetIntValue(int64(u()))
+					e.FilteredAttributes().PutStr("x", fmt.Sprintf("x%d", u()))
+				}
+				st, ts := pcommon.Timestamp(base+uint64(u())), pcommon.Timestamp(base+uint64(u())*7)
+				fl := pmetric.DefaultDataPointFlags
+				if u()%2 == 1 {
+					fl = fl.WithNoRecordedValue(true)
+				}
+				switch i % 5 {
+				case 0:
+					dp := m.SetEmptyGauge().DataPoints().AppendEmpty()
+					dp.SetStartTimestamp(st)
+					dp.SetTimestamp(ts)
+					dp.SetFlags(fl)
+					dp.SetIntValue(int64(u()))
+					attrs(dp.Attributes(), u)
+					ex(dp.Exemplars())
+				case 1:
+					s := m.SetEmptySum()
+					s.SetAggregationTemporality(pmetric.AggregationTemporality(1 + u()%2))
+					s.SetIsMonotonic(u()%2 == 0)
+					dp := s.DataPoints().AppendEmpty()
+					dp.SetStartTimestamp(st)
+					dp.SetTimestamp(ts)
+					dp.SetFlags(fl)
+					dp.SetDoubleValue(float64(u()) + 0.25)
+					attrs(dp.Attributes(), u)
+					ex(dp.Exemplars())
+				case 2:
+					hh := m.SetEmptyHistogram()
+					hh.SetAggregationTemporality(pmetric.AggregationTemporality(1 + u()%2))
+					dp := hh.DataPoints().AppendEmpty()
+					dp.SetStartTimestamp(st)
+					dp.SetTimestamp(ts)
+					dp.SetFlags(fl)
+					dp.SetCount(uint64(u()))
+					dp.SetSum(float64(u()))
+					dp.SetMin(float64(u()) - 1)
+					dp.SetMax(float64(u()) + 1)
+					dp.BucketCounts().FromRaw([]uint64{uint64(u()), 1})
+					dp.ExplicitBounds().FromRaw([]float64{float64(u())})
+					attrs(dp.Attributes(), u)
+					ex(dp.Exemplars())
+				case 3:
+					hh := m.SetEmptyExponentialHistogram()
+					hh.SetAggregationTemporality(pmetric.AggregationTemporality(1 + u()%2))
+					dp := hh.DataPoints().AppendEmpty()
+					dp.SetStartTimestamp(st)
+					dp.SetTimestamp(ts)
+					dp.SetFlags(fl)
+					dp.SetCount(uint64(u()))
+					dp.SetSum(float64(u()))
+					dp.SetScale(int32(u() % 10))
+					dp.SetZeroCount(uint64(u()))
+					dp.Positive().SetOffset(int32(u()))
+					dp.Positive().BucketCounts().FromRaw([]uint64{uint64(u()), 2})
+					dp.Negative().SetOffset(int32(u()))
+					dp.Negative().BucketCounts().FromRaw([]uint64{uint64(u())})
+					attrs(dp.Attributes(), u)
+					ex(dp.Exemplars())
+				default:
+					dp := m.SetEmptySummary().DataPoints().AppendEmpty()
+					dp.SetStartTimestamp(st)
+					dp.SetTimestamp(ts)
+					dp.SetFlags(fl)
+					dp.SetCount(uint64(u()))
+					dp.SetSum(float64(u()))
+					q := dp.QuantileValues().AppendEmpty()
+					q.SetQuantile(0.5)
+					q.SetValue(float64(u()))
+					attrs(dp.Attributes(), u)
+				}
+			}
+			return MB(md)
+		}
+	}
+	return h
+}
